@@ -174,6 +174,8 @@ def atomic_idiom_rule(ctx, rule, fv, who):
 
 
 def take_rule(ctx, fc):
+    if rule_spawn_count(ctx, "C07.T", fc, "count_chunk") < 1:
+        ctx.fail("C07.T", "count_chunk:spawn_count:floor", "no `for _ in 0..threads` worker spawn loop found", fc.fn["sp"])
     clo = worker_closure(fc)
     if clo is None:
         ctx.fail("C07.T", "count_chunk:worker", "spawned worker closure not found", fc.fn["sp"])
@@ -215,6 +217,30 @@ def take_rule(ctx, fc):
     ctx.check("C07.T", "count_chunk:exits", bad_break is None,
               "workers stop only before taking (ceiling) or when the reader is exhausted",
               "a worker breaks out after taking a record that was not None", line_of(loop))
+    # the ceiling test lets a worker take a record whenever the budget counter has not EXCEEDED the budget
+    # (counter == budget, in particular 0 == 0 for a tiny ceiling, must still take: otherwise a pass reads nothing)
+    def is_budget_load(t):
+        return t[0] == "call" and t[1].endswith("::load")
+    tests = []
+    for n in walk(loop):
+        c = n.get("cond") if n.get("k") in ("while", "if") else None
+        if c is None or c.get("k") == "letexpr":
+            continue
+        t = fc.term(c)
+        if t[0] == "bin" and t[1] in ("<", "<=") and (is_budget_load(t[2]) != is_budget_load(t[3])):
+            if n.get("k") == "while":
+                keeps_going_at_equality = t[1] == "<="
+            else:
+                brk = diverges(n["then"]) and any(x.get("k") == "break" for x in walk(n["then"]))
+                if not brk:
+                    continue
+                keeps_going_at_equality = t[1] == "<"        # `if limit < load { break }`: false at equality
+            tests.append((n, t, keeps_going_at_equality))
+    ctx.check("C07.T", "count_chunk:ceiling_test", len(tests) == 1 and tests[0][2],
+              "workers stop only when the budget counter EXCEEDS the budget (`%s`)" % (show(tests[0][1]) if tests else "?"),
+              "the ceiling test `%s` stops a worker already when the counter EQUALS the budget: with a ceiling small enough "
+              "for a zero budget no worker ever takes a record, the pass reads nothing and the run ends with empty counts"
+              % (show(tests[0][1]) if tests else "<not found>"), line_of(tests[0][0]) if tests else line_of(loop))
     # counting loop uses record.seq of the taken record
     if kloops:
         it = fc.term(kloops[0]["iter"])
